@@ -34,6 +34,8 @@ def segments(events):
     for ev in events:
         if ev[0] == 'w':
             segs.append({'text': ev[1], 'ok': ev[2], 'reads': []})
+        elif ev[0] != 'r':
+            continue
         elif segs:
             segs[-1]['reads'].append(ev[1])
         else:
@@ -143,6 +145,12 @@ def oracle(ctx, sc, recs, desc):
                 if r['ret'] != rest:
                     F.violate(ctx, 'query: value is not the reply without name and one comma', where, repr(r['ret']), repr(rest),
                                 key='C05:query:value')
+        # ---- a recorded failure must stay recorded (assignments to err are logged)
+        for ev in r['events']:
+            if ev[0] == 'e' and ev[1] is not None and ev[2] != ev[1]:
+                F.violate(ctx, f'{name} erases / replaces the error it recorded', where, {'before': ev[1], 'assigned': ev[2]},
+                          'the failure is recorded as the object\'s error', key=f'C05:{name}:error-erased')
+                break
         # ---- no exception
         if r['exc']:
             cls = next((e[5] for e in r['events'] if e[0] == 'w' and not e[2]), None) or \
@@ -207,5 +215,6 @@ def run(ctx):
     F.run_scenarios(ctx, F.corpus_scenarios('C05'), oracle, 'C05', F.ignore_known)
     F.run_scenarios(ctx, F.request_string_scenarios(rng), oracle, 'C05', F.ignore_known)
     F.run_scenarios(ctx, F.retry_scenarios(), oracle, 'C05', F.ignore_known)
+    F.run_scenarios(ctx, F.two_object_scenarios(), oracle, 'C05', F.ignore_known)
     F.run_scenarios(ctx, F.fault_scenarios(), oracle, 'C05', F.ignore_known)
     F.run_scenarios(ctx, F.random_scenarios(rng, ctx.n(4000), maxlen=12), oracle, 'C05', F.ignore_known)
